@@ -208,7 +208,14 @@ pub enum Surgery {
     /// Replace `post` by a version 2.5 table (deprecated; one signed offset per glyph into the
     /// standard Macintosh order; only possible up to 385 glyphs) or by a bare version 3.0 header.
     /// Every corpus font has version 2.0 or 3.0.
-    PostFormat { v25: bool, variant: u64 },
+    PostFormat {
+        v25: bool,
+        variant: u64,
+        /// A version 2.0 table instead: a mix of standard names and custom names `g<k>` (the
+        /// variable fonts of the corpus all have version 3.0).
+        #[serde(default, skip_serializing_if = "std::ops::Not::not")]
+        v20: bool,
+    },
     /// Replace GSUB by a small table with `liga` (f i -> f, f f i -> f), `frac` (on the slash) and
     /// `numr` / `dnom` (on the digits): only three corpus fonts have `frac`, none of them together
     /// with a Latin ligature, so the fraction path of the shaper never meets a run that a
